@@ -7,6 +7,7 @@ a computable rank for registries, and the statement for whole documents.
 import AstGrepVerif.Lemmas.RuleFuelReg
 import AstGrepVerif.Lemmas.TreeClosed
 import AstGrepVerif.Lemmas.RuleRefVars
+import AstGrepVerif.Lemmas.MatchNodes
 
 set_option linter.unusedSimpArgs false
 set_option linter.unusedVariables false
@@ -191,6 +192,96 @@ namespace AGV.RuleFuelReg
 
 open AGV AGV.RuleFuel
 
+
+/-! ## captured nodes are nodes of the candidate; the invariant with values in the document -/
+
+/-- the single bindings of `st'` are those of `st` or bind nodes satisfying `N` -/
+def EnvStep (N : Tree → Prop) (st st' : Env) : Prop := ∀ kv ∈ st'.single, kv ∈ st.single ∨ N kv.2
+
+theorem mem_ainsert {β} (k : Name) (v : β) : ∀ (l : List (Name × β)) (x : Name × β),
+    x ∈ ainsert k v l → x = (k, v) ∨ x ∈ l
+  | [], x, h => by simp [ainsert] at h; exact .inl h
+  | (k', v') :: rest, x, h => by
+    simp only [ainsert] at h
+    split at h
+    · rcases List.mem_cons.1 h with h | h
+      · exact .inl h
+      · exact .inr (List.mem_cons_of_mem _ h)
+    · rcases List.mem_cons.1 h with h | h
+      · exact .inr (h ▸ List.mem_cons_self)
+      · rcases mem_ainsert k v rest x h with h | h
+        · exact .inl h
+        · exact .inr (List.mem_cons_of_mem _ h)
+
+theorem envAgg_stepOK (src : Bytes) : StepOK (envAgg src) EnvStep where
+  refl := fun kv h => .inl h
+  trans := fun h1 h2 kv h => by
+    rcases h2 kv h with h | h
+    · exact h1 kv h
+    · exact .inr h
+  mono := fun hNM h1 kv h => (h1 kv h).imp id (hNM _)
+  terminal := fun h _ kv hk => by
+    simp only [envAgg, Option.some.injEq] at h; subst h; exact .inl hk
+  metaVar := by
+    intro N st st' mv t h hN kv hk
+    have hins : ∀ name, Env.insert src st name t = some st' → kv ∈ st.single ∨ N kv.2 := by
+      intro name hi
+      simp only [Env.insert] at hi
+      split at hi
+      · simp only [Option.some.injEq] at hi; subst hi
+        rcases mem_ainsert _ _ _ _ hk with h | h
+        · exact .inr (h ▸ hN)
+        · exact .inl h
+      · cases hi
+    simp only [envAgg, matchLeafMetaVar] at h
+    cases mv with
+    | capture name named =>
+      simp only at h
+      split at h
+      · cases h
+      · exact hins name h
+    | dropped named =>
+      simp only at h
+      split at h
+      · cases h
+      · simp only [Option.some.injEq] at h; subst h; exact .inl hk
+    | multiple => simp only [Option.some.injEq] at h; subst h; exact .inl hk
+    | multiCapture name => exact hins name h
+  ellipsis := by
+    intro N st st' n nodes k h _ kv hk
+    simp only [envAgg] at h
+    cases n with
+    | none => simp only [Option.some.injEq] at h; subst h; exact .inl hk
+    | some v =>
+      simp only [Env.insertMulti] at h
+      split at h
+      · simp only [Option.some.injEq] at h; subst h; exact .inl hk
+      · cases h
+
+/-- **captured nodes are nodes of the candidate's subtree** -/
+theorem matchPatternEnv_values (s : Strictness) (src : Bytes) (f : Nat) (p : PNode) (c : Tree)
+    (env env' : Env) (h : matchPatternEnv s src f p c env = .ok (some env')) :
+    ∀ kv ∈ env'.single, kv ∈ env.single ∨ kv.2 ∈ c.preorder := by
+  simp only [matchPatternEnv] at h
+  rcases hm : matchNode (envAgg src) s src f p c env with err | ⟨r, st⟩
+  · rw [hm] at h; cases h
+  · rw [hm] at h
+    cases r <;> simp only [Except.ok.injEq, Option.some.injEq, reduceCtorEq] at h
+    subst h
+    exact (all_st (envAgg src) s src EnvStep (envAgg_stepOK src) f).1 p c env _ hm
+
+/-- single bindings keyed by distinct names of `K`, binding nodes of `S` -/
+def EnvKS (K : List Name) (S : List Tree) (env : Env) : Prop :=
+  EnvK K env ∧ ∀ kv ∈ env.single, kv.2 ∈ S
+
+theorem EnvKS.empty (K : List Name) (S : List Tree) : EnvKS K S Env.empty :=
+  ⟨EnvK.empty K, fun kv h => by cases h⟩
+
+theorem EnvKS.addLabel {K : List Name} {S : List Tree} {env : Env} (h : EnvKS K S env) (m : Tree) :
+    EnvKS K S (env.addLabel secondaryLabel m) := by
+  refine ⟨h.1.addLabel m, ?_⟩
+  unfold Env.addLabel; split <;> exact h.2
+
 /-! ## a computable rank: the depth of the reference graph -/
 
 mutual
@@ -277,7 +368,64 @@ theorem matchRule_noBad_document (ctx : RCtx) (bad : Abn → Prop) (rank : Name 
   rule_noFuel ctx bad ctx.root.preorder ctx.root.size K.length (closed_of_tree ctx) rank hrank
     (EnvK K) (EnvK.empty K) (fun env h => h.length_le) (fun env m h => h.addLabel m)
     (PpK ctx bad K) (fun p s h => h.1)
-    (fun p s h f c env env' hI hm => pattern_keeps_envK K s ctx.src f p c env env' h.2 hI hm)
+    (fun p s h f c env env' _ hI hm => pattern_keeps_envK K s ctx.src f p c env env' h.2 hI hm)
     hreg.1 hreg.2 (fun id core hg => .inl (hnc id core hg)) Kr r hr hp n hn env fuel henv hf
+
+end AGV.RuleFuelReg
+
+namespace AGV.RuleFuelReg
+
+open AGV AGV.RuleFuel
+
+/-! ## the statements for whole documents, constraints included -/
+
+section
+variable (ctx : RCtx) (bad : Abn → Prop) (rank : Name → Nat) (hrank : RegRanked ctx rank)
+  (K : List Name) (hreg : RegPats ctx (PpK ctx bad K))
+
+include hrank hreg in
+/-- **termination over an acyclic registry, constraints of global utilities included**: the
+environment invariant also says that bound nodes are nodes of the document
+(`matchPatternEnv_values`), so the constraint rules are run on nodes of the document -/
+theorem matchRule_noBad_document' (Kr : Nat) (r : Rule) (hr : refsBelow rank Kr r = true)
+    (hp : PatsAll (PpK ctx bad K) r) (n : Tree) (hn : n ∈ ctx.root.preorder) (env : Env)
+    (henv : EnvKS K ctx.root.preorder env) (fuel : Nat)
+    (hf : costG (mcost ctx ctx.root.size K.length Kr) ctx.root.size r ≤ fuel) :
+    NoBad bad (matchRule ctx fuel r n env) :=
+  rule_noFuel ctx bad ctx.root.preorder ctx.root.size K.length (closed_of_tree ctx) rank hrank
+    (EnvKS K ctx.root.preorder) (EnvKS.empty K _) (fun env h => h.1.length_le)
+    (fun env m h => h.addLabel m)
+    (PpK ctx bad K) (fun p s h => h.1)
+    (fun p s h f c env env' hc hI hm =>
+      ⟨pattern_keeps_envK K s ctx.src f p c env env' h.2 hI.1 hm, fun kv hk => by
+        rcases matchPatternEnv_values s ctx.src f p c env env' hm kv hk with h1 | h1
+        · exact hI.2 kv h1
+        · exact ((closed_of_tree ctx).preorder c hc).1 _ h1⟩)
+    hreg.1 hreg.2 (fun id core hg => .inr fun env hI => hI.2) Kr r hr hp n hn env fuel henv hf
+
+include hrank hreg in
+/-- the same for a rule core (rule and constraints), e.g. the core a scan runs on every node -/
+theorem matchCore_noBad_document (Kr : Nat) (core : RuleCore)
+    (hr1 : refsBelow rank Kr core.rule = true)
+    (hr2 : ∀ c ∈ core.constraints, refsBelow rank Kr c.2 = true)
+    (hp1 : PatsAll (PpK ctx bad K) core.rule)
+    (hp2 : ∀ v m, alookup v core.constraints = some m → PatsAll (PpK ctx bad K) m)
+    (n : Tree) (hn : n ∈ ctx.root.preorder) (env : Env)
+    (henv : EnvKS K ctx.root.preorder env) (fuel : Nat)
+    (hf : coreCost ctx ctx.root.size K.length Kr core ≤ fuel) :
+    NoBad bad (matchCore ctx fuel core n env) :=
+  core_noFuel ctx bad ctx.root.preorder ctx.root.size K.length (closed_of_tree ctx) rank hrank
+    (EnvKS K ctx.root.preorder) (EnvKS.empty K _) (fun env h => h.1.length_le)
+    (fun env m h => h.addLabel m)
+    (PpK ctx bad K) (fun p s h => h.1)
+    (fun p s h f c env env' hc hI hm =>
+      ⟨pattern_keeps_envK K s ctx.src f p c env env' h.2 hI.1 hm, fun kv hk => by
+        rcases matchPatternEnv_values s ctx.src f p c env env' hm kv hk with h1 | h1
+        · exact hI.2 kv h1
+        · exact ((closed_of_tree ctx).preorder c hc).1 _ h1⟩)
+    hreg.1 hreg.2 (fun id core hg => .inr fun env hI => hI.2) Kr core hr1 hr2 hp1 hp2
+    (.inr fun env hI => hI.2) n hn env fuel henv hf
+
+end
 
 end AGV.RuleFuelReg
